@@ -59,6 +59,46 @@ Theorem C08_warm_output_machine : forall (R P : Type) (snap : Z -> R) (pvs : Z -
 Proof. exact warm_records_written. Qed.
 Print Assumptions C08_warm_output_machine.
 
+(** T1 CLOSED, about whole set-ups (Model/Setup.v, Model/SetupWarm.v).  The uninterrupted run is compiled
+    by the component machines from the clock, the forcing files and the release table.  The RESTARTED
+    simulation has its own clock starting at the restart time (steps counted from there), constructs the
+    forcing module afresh from the same files (new step tables, pre-step interpolation towards the next frame
+    — C03's machine started in the middle of a bracket, in the middle of a file, forward or reversed),
+    constructs the releaser with warm = true from the same table, and restores the particles and the pid
+    counter from the record of step r.  For every well-formed set-up and every restart step r at which a
+    record is due: the uninterrupted run's records are [before ++ rec_r :: rest], and the restarted run, with
+    its record steps relabelled by +r, did not fail, holds the same particles (row, pid, liveness, values up to
+    == on the rationals) and wrote the same records as [rest]. *)
+From Coq Require Import QArith.
+Open Scope Z_scope.
+From Ladim Require Import Model.Time Model.Setup Model.SetupWarm Proofs.SimRelProofs Proofs.SimShiftProofs Proofs.SetupProofs Proofs.SetupRestartProofs.
+Theorem C08_closed_restart : forall s r,
+  setup_ok s = true -> dir_ok (s_tk s) = true -> 0 <= r < s_nsteps s -> 0 < s_period s -> s_due s r = true ->
+  let step := sim_step pv Z (m_release s) (m_force s) s_cache (m_track s) (ibm s) (s_due s) in
+  let before := fold_left step (zrange 0 r) (sim_init pv Z) in
+  let rec_r := snapshot pv r (after_release pv Z (m_release s) (m_force s) before false r) in
+  let np := npid before + Z.of_nat (length (m_release s r)) in
+  let rest := warm_run pv Z (m_release s) (m_force s) s_cache (m_track s) (ibm s) (s_due s) rec_r np (s_nsteps s) in
+  let restarted := m_warm_run (warm_setup s r) (relabel_rec pv (- r) rec_r) np in
+  recs (m_run s) = recs before ++ [rec_r] ++ recs rest /\
+  srel pv pv Z pv_eq (relabel pv Z r restarted) rest.
+Proof. exact restart_transparent. Qed.
+Print Assumptions C08_closed_restart.
+
+(** non-vacuity: the reversed two-file set-up of Model/Setup.v restarted after its record of step 2 *)
+Example C08_closed_ex :
+  let s := ex_setup in let r := 2 in
+  let step := sim_step pv Z (m_release s) (m_force s) s_cache (m_track s) (ibm s) (s_due s) in
+  let before := fold_left step (zrange 0 r) (sim_init pv Z) in
+  let rec_r := snapshot pv r (after_release pv Z (m_release s) (m_force s) before false r) in
+  let np := npid before + Z.of_nat (length (m_release s r)) in
+  let restarted := m_warm_run (warm_setup s r) (relabel_rec pv (- r) rec_r) np in
+  setup_ok s = true /\ dir_ok (s_tk s) = true /\ s_due s r = true /\ s_nsteps s = 6 /\ np = 3 /\
+  s_tk (warm_setup s r) = {| start := 2400; stop := 0; dt := 600; ref := 0; rev := true |} /\
+  show_run restarted = [(2, [(0, 0, (21 # 8)%Q, 4, 20%Q); (1, 1, (45 # 8)%Q, 2, 20%Q); (2, 1, (45 # 8)%Q, 2, 20%Q)])] /\
+  show_run (relabel pv Z r restarted) = skipn 2 (show_run (m_run s)).
+Proof. vm_compute. repeat split. Qed.
+
 (** non-vacuity: the executable instance used by the correspondence (Corr/SimInst.v) satisfies the
     hypothesis of T1, so T1 applies to every scenario the correspondence runs *)
 From Ladim Require Import Corr.SimInst.
